@@ -27,6 +27,7 @@ NL == "\n"
 SB == "~"     \* soft break: nothing/space, a line break, or a blank line
 SL == "^"     \* soft line: nothing/space or a single line break (after attributes and block comments)
 ST == "#"     \* soft top-level break: between definitions - like SB, but a layout may keep the next definition on the same line
+SRO == "<ro>"   \* after the readonly modifier: a space - or, in the layout whose acceptance is left open, a line break
 SA == "%"     \* soft attribute break: nothing/space, a line break, or an EMPTY line between an attribute and what it annotates
 
 NoDoc == <<>>
@@ -74,7 +75,7 @@ OpTokens(op, bare) == IF op = "" THEN <<>> ELSE << "[", "opcode", "(", op, ")", 
 RECURSIVE DefTokens(_)
 DefTokens(d) ==
   CASE d.k = "struct" ->
-         (IF d.ro THEN << "readonly" >> ELSE <<>>) \o << "struct", d.name, "{" >>
+         (IF d.ro THEN << "readonly", SRO >> ELSE <<>>) \o << "struct", d.name, "{" >>
          \o FlattenSeq([i \in 1..Len(d.fields) |-> FieldTokens(d.fields[i], FALSE, d.asp)]) \o << SB, "}" >>
     [] d.k = "message" ->
          << "message", d.name, "{" >>
